@@ -4,6 +4,8 @@ import (
 	"fmt"
 	"os"
 
+	"github.com/youzan/ZanRedisDB/raft"
+	pb "github.com/youzan/ZanRedisDB/raft/raftpb"
 	"pgregory.net/rapid"
 
 	"verifharness/lib/stats"
@@ -51,7 +53,10 @@ func (t *silentT) Fatalf(format string, args ...interface{}) {
 	panic(silentStop{})
 }
 
-var selfChecked int
+var (
+	selfChecked int
+	ctorChecked bool
+)
 
 // SelfCheckCases is how many cases at the start of a process are executed twice.
 const SelfCheckCases = 20
@@ -83,6 +88,15 @@ func execute(t Fataler, ch Chooser, prof Profile, f CaseFuncs, finish bool) (has
 // the same trace hash (every Ready of every replica enters it), otherwise the
 // process ends with a HARNESS: message (exit 3, no test failure).
 func RunCase(t *rapid.T, prof Profile, f CaseFuncs) {
+	if !ctorChecked {
+		ctorChecked = true
+		if why := SelfTestConstructors(); why != "" {
+			fmt.Fprintf(os.Stderr, "HARNESS: %s\n", why)
+			fmt.Printf("HARNESS: %s\n", why)
+			stats.FlushAll()
+			os.Exit(3)
+		}
+	}
 	if selfChecked >= SelfCheckCases {
 		execute(t, RapidChooser{t}, prof, f, true)
 		return
@@ -120,4 +134,107 @@ func RunCase(t *rapid.T, prof Profile, f CaseFuncs) {
 		stats.FlushAll()
 		os.Exit(3)
 	}
+}
+
+// SelfTestConstructors compares nodes built by raft.StartNode / raft.RestartNode with
+// nodes built by the hook's mirrors (same code, shorter queues): the constructor-set
+// fields must be identical, and so must the first Ready. Returns "" if they agree.
+func SelfTestConstructors() string {
+	type mk func(real bool) raft.Node
+	lg := &simLogger{}
+	cfg := func(id uint64, st raft.Storage) *raft.Config {
+		return &raft.Config{ID: id, ElectionTick: 5, HeartbeatTick: 1, Storage: st, MaxSizePerMsg: 1 << 20, MaxCommittedSizePerReady: 1 << 20,
+			MaxInflightMsgs: 8, CheckQuorum: true, PreVote: true, Logger: lg, Group: groupOf(id)}
+	}
+	peers := []raft.Peer{{NodeID: 1, ReplicaID: 1, Context: memberContext(1)}, {NodeID: 2, ReplicaID: 2, Context: memberContext(2)}, {NodeID: 3, ReplicaID: 3, Context: memberContext(3)}}
+	filled := func() *raft.MemoryStorage {
+		st := raft.NewRealMemoryStorage()
+		cs := pb.ConfState{Nodes: []uint64{1, 2}, Learners: []uint64{3}}
+		g1, g2, g3 := groupOf(1), groupOf(2), groupOf(3)
+		cs.Groups = []*pb.Group{&g1, &g2}
+		cs.LearnerGroups = []*pb.Group{&g3}
+		st.ApplySnapshot(pb.Snapshot{Metadata: pb.SnapshotMetadata{Index: 4, Term: 2, ConfState: cs}})
+		st.SetHardState(pb.HardState{Term: 3, Vote: 2, Commit: 5})
+		st.Append([]pb.Entry{{Index: 5, Term: 2, Data: []byte("x")}, {Index: 6, Term: 3, Data: []byte("y")}})
+		return st
+	}
+	cases := map[string]mk{
+		"StartNode(bootstrap)": func(real bool) raft.Node {
+			if real {
+				return raft.StartNode(cfg(2, raft.NewRealMemoryStorage()), peers, false)
+			}
+			return raft.VerifStartNode(cfg(2, raft.NewRealMemoryStorage()), peers, false, simRecvQueue, simPropQueue)
+		},
+		"StartNode(join)": func(real bool) raft.Node {
+			if real {
+				return raft.StartNode(cfg(4, raft.NewRealMemoryStorage()), nil, false)
+			}
+			return raft.VerifStartNode(cfg(4, raft.NewRealMemoryStorage()), nil, false, simRecvQueue, simPropQueue)
+		},
+		"StartNode(join learner)": func(real bool) raft.Node {
+			if real {
+				return raft.StartNode(cfg(5, raft.NewRealMemoryStorage()), nil, true)
+			}
+			return raft.VerifStartNode(cfg(5, raft.NewRealMemoryStorage()), nil, true, simRecvQueue, simPropQueue)
+		},
+		"RestartNode(empty)": func(real bool) raft.Node {
+			if real {
+				return raft.RestartNode(cfg(1, raft.NewRealMemoryStorage()))
+			}
+			return raft.VerifRestartNode(cfg(1, raft.NewRealMemoryStorage()), simRecvQueue, simPropQueue)
+		},
+		"RestartNode(snapshot+entries, learner)": func(real bool) raft.Node {
+			if real {
+				return raft.RestartNode(cfg(3, filled()))
+			}
+			return raft.VerifRestartNode(cfg(3, filled()), simRecvQueue, simPropQueue)
+		},
+		"RestartNode(snapshot+entries, voter)": func(real bool) raft.Node {
+			if real {
+				return raft.RestartNode(cfg(1, filled()))
+			}
+			return raft.VerifRestartNode(cfg(1, filled()), simRecvQueue, simPropQueue)
+		},
+	}
+	for name, f := range cases {
+		a, b := f(true), f(false)
+		if sa, sb := raft.VerifNodeShape(a), raft.VerifNodeShape(b); sa != sb {
+			return fmt.Sprintf("mirror constructor differs from raft's (%s):\n real:   %s\n mirror: %s", name, sa, sb)
+		}
+		a.Tick()
+		b.Tick()
+		ra, oka := a.StepNode(true, false)
+		rb, okb := b.StepNode(true, false)
+		da := fmt.Sprintf("%v soft=%v hs=%+v ents=%d committed=%d msgs=%d snap=%d", oka, ra.SoftState, ra.HardState, len(ra.Entries), len(ra.CommittedEntries), len(ra.Messages), ra.Snapshot.Metadata.Index)
+		db := fmt.Sprintf("%v soft=%v hs=%+v ents=%d committed=%d msgs=%d snap=%d", okb, rb.SoftState, rb.HardState, len(rb.Entries), len(rb.CommittedEntries), len(rb.Messages), rb.Snapshot.Metadata.Index)
+		if ra.SoftState != nil && rb.SoftState != nil {
+			da += fmt.Sprintf(" %+v", *ra.SoftState)
+			db += fmt.Sprintf(" %+v", *rb.SoftState)
+		}
+		da, db = stripPtr(da), stripPtr(db)
+		if da != db {
+			return fmt.Sprintf("first Ready of a mirror-built node differs (%s):\n real:   %s\n mirror: %s", name, da, db)
+		}
+		a.Stop()
+		b.Stop()
+	}
+	return ""
+}
+
+func stripPtr(s string) string {
+	// "soft=0xc000..." pointer values differ between the two nodes
+	out := []byte{}
+	for i := 0; i < len(s); i++ {
+		if i+1 < len(s) && s[i] == '0' && s[i+1] == 'x' {
+			j := i + 2
+			for j < len(s) && ((s[j] >= '0' && s[j] <= '9') || (s[j] >= 'a' && s[j] <= 'f')) {
+				j++
+			}
+			out = append(out, 'P')
+			i = j - 1
+			continue
+		}
+		out = append(out, s[i])
+	}
+	return string(out)
 }
